@@ -34,6 +34,7 @@ func runChain(t *testing.T, sp *chainSpec) {
 		var prevApp *AppState
 		paramsChangedSeen := 0
 		gsrc, generating := src.(*GenSource)
+		var injPanic *PanicError
 		// A real node serves mempool checks all the time: CheckTx of the block's own txs right before their
 		// delivery and of fresh valid txs at the ABCI-call boundaries. They must not influence what the model predicts.
 		serve := func(c *Case, b *Block, pos int, own []byte) {
@@ -51,7 +52,11 @@ func runChain(t *testing.T, sp *chainSpec) {
 					continue
 				}
 				inj.done = true
-				if r, perr := c.Sim.CheckTx(inj.Tx); perr == nil && r.Code == 0 {
+				if r, perr := c.Sim.CheckTx(inj.Tx); perr != nil {
+					// a crash of the mempool check is C09's finding; here the case just ends
+					c.W.Feat["checktx_panicked"]++
+					injPanic = perr
+				} else if r.Code == 0 {
 					c.W.Feat["checktx_ok_served"]++
 				}
 			}
@@ -65,6 +70,7 @@ func runChain(t *testing.T, sp *chainSpec) {
 				}
 			},
 			BeforeBlock: func(c *Case, b *Block) {
+				serve(c, b, -1, nil) // also right after a restart, before the first BeginBlock
 				if c.W.PeekDelegatee == nil {
 					c.W.PeekDelegatee = func(addr []byte) bool { return c.Sim.App.VerifStake().Delegatee(addr) != nil }
 				}
@@ -79,6 +85,9 @@ func runChain(t *testing.T, sp *chainSpec) {
 					prevApp.Prev = nil
 				}
 				prevApp = a
+				if injPanic != nil {
+					return injPanic
+				}
 				sp.compare(c, a, b, br)
 				if vs := c.W.violationsOf(sp.prop); len(vs) > 0 {
 					firstViol = &vs[0]
